@@ -59,15 +59,40 @@ theorem returns_quorum_zone (hr : run c (init c order pre) evs = some s) (hz : c
 
 /-! ### errors: exactly when due -/
 
-/-- An error is returned only for one of the four reasons: invalid configuration; the caller's
-context is done; the tracker's failure count exceeds the tolerance (`failed`, spelled out in
-`failed_means`); a callback returned an error for which `IsTerminalError` holds. -/
+/-- An error is returned only for one of these reasons, and it is the error belonging to the reason:
+1. invalid configuration;
+2. the caller's context is done (the cancellation is returned);
+3. the failure count exceeds the tolerance (`failed`; in observables: `failed_means`,
+   `counters_match_history`) — the error returned is the one that tipped the count, i.e. that of the
+   last counted failure `i`: its callback's error, or a cancellation-class error if `i`'s `awaitStart`
+   failed;
+4. a callback returned an error for which `IsTerminalError` holds — that error is returned;
+5. `IsTerminalError` holds for the (cancellation-class) error posted by a goroutine whose `awaitStart`
+   failed (`abT i`: the predicate's answer for instance `i`'s `awaitStart` error, given by the event
+   `abort i true`). Go applies the predicate to every non-nil error it receives, so does the model
+   (`isTerminal`); `error_cause_abort_terminal_witness` shows this reason is needed. -/
 theorem error_has_cause (hr : run c (init c order pre) evs = some s) {e} (hm : s.main = .retErr e) :
     (e = .invalid ∧ c.invalid = true) ∨
     (e = .cancelled ∧ s.parentCanc = true) ∨
-    failed c s = true ∨
-    (∃ i, e = .inst i ∧ c.hasTerm = true ∧ (i, Res.term) ∈ s.fin) :=
+    (failed c s = true ∧ ∃ i, s.doneErr.getLast? = some i ∧ (e = .inst i ∨ e = .cancelled)) ∨
+    (∃ i, e = .inst i ∧ c.hasTerm = true ∧ (i, Res.term) ∈ s.fin) ∨
+    (e = .cancelled ∧ c.hasTerm = true ∧ ∃ i, s.abT i = true) :=
   PfC11.error_has_cause hr hm
+
+/-- zones 0,0,1; one zone may be unavailable; a terminal-error predicate is set. -/
+def abCfg : Cfg :=
+  { zones := [0, 0, 1], maxErrors := 0, maxUnavail := 1, zoneAware := true, minimize := false, hedging := false
+    hasTerm := true, cancelAll := false }
+
+/-- **Reason 5 is needed**: instance 0 fails with a non-terminal error (one failed zone is tolerated);
+that cancels the context of its zone-mate 1, which has not left `awaitStart` yet and now posts the
+cancellation cause; the predicate classifies that error as terminal (`abort 1 true`): the call returns
+a cancellation-class error although the tolerance is not exceeded (`failed = false`), the caller did
+not cancel and the only callback that returned is that of instance 0 (the only one started). -/
+theorem error_cause_abort_terminal_witness :
+    (run abCfg (init abCfg [] false) [.begin 0, .finish 0 .err, .recv, .abort 1 true, .recv]).map
+      (fun s => (s.main, failed abCfg s || s.parentCanc, s.fin.map (·.1), s.started)) =
+    some (.retErr .cancelled, false, [0], [0]) := by decide +kernel
 
 /-- `failed` means: more than `MaxErrors` distinct instances (resp. instances in more than
 `MaxUnavailableZones` zones) delivered a non-successful result that the main loop counted. -/
@@ -86,11 +111,49 @@ theorem running_means_undecided (hr : run c (init c order pre) evs = some s) (hm
     succeeded c s = false ∧ failed c s = false ∧ s.cleaned = [] :=
   PfC11.loop_invariant hr hm
 
-/-- receiving a terminal error makes the function return that error at once. -/
+/-- The tracker's counters count the history: `nSucc` / `waiting` are determined by the successes the
+main loop received (`resMap`: exactly the callbacks that returned success and whose result was
+received, while running), `nErr` / `fails` by the failures it counted (`doneErr`: distinct instances
+with a non-successful result that was received). So `succeeded` / `failed` above are statements about
+what was received. -/
+theorem counters_match_history (hr : run c (init c order pre) evs = some s) :
+    (c.zoneMode = false → s.nSucc = s.resMap.length ∧ s.nErr = s.doneErr.length) ∧
+    (c.zoneMode = true → ∀ z, s.waiting z = (List.range c.n).countP (PfC11.waitingPred c s.resMap s.doneErr z) ∧
+        s.fails z = s.doneErr.countP (fun j => decide (c.zoneOf j = z))) ∧
+    (∀ i, i ∈ s.resMap → i < c.n ∧ (i, Res.ok) ∈ s.fin) ∧
+    (s.main = .running → ∀ i, i ∈ s.resMap ↔ ((i, Res.ok) ∈ s.fin ∧ s.phase i = .consumed)) ∧
+    s.resMap.Nodup ∧ s.doneErr.Nodup ∧
+    (∀ i, i ∈ s.doneErr → i < c.n ∧ (i, Res.ok) ∉ s.fin ∧ s.phase i = .consumed) :=
+  PfC11.counters_match_history hr
+
+/-- `running_means_undecided` in observables: while the loop runs it has counted at most the tolerated
+failures and received fewer successes than a quorum (not zone-aware: instances; zone-aware: zones
+with a counted failure, resp. zones none of whose instances is outstanding or failed). Together with
+`error_has_cause` (3): the error is returned exactly at the `recv` that tips the count. -/
+theorem running_means_undecided_obs (hr : run c (init c order pre) evs = some s) (hm : s.main = .running) :
+    (c.zoneMode = false → s.doneErr.length ≤ c.maxErrors ∧ s.resMap.length + c.maxErrors < c.n) ∧
+    (c.zoneMode = true →
+      (c.zoneList.filter fun z => decide (0 < s.doneErr.countP fun j => decide (c.zoneOf j = z))).length ≤ c.maxUnavail ∧
+      (c.zoneList.filter fun z => (List.range c.n).countP (PfC11.waitingPred c s.resMap s.doneErr z) == 0 &&
+          s.doneErr.countP (fun j => decide (c.zoneOf j = z)) == 0).length + c.maxUnavail < c.zoneList.length) :=
+  PfC11.running_means_undecided_obs hr hm
+
+/-- (`…_returns`: one-step lemmas about any state `s` — the `recv` / `ctxDone` case is ENABLED and taking
+it returns the error. That the scheduler eventually takes an enabled case of the main loop's `select`
+is Go's, not proved here; see `level_note`.)
+
+Receiving a terminal error makes the function return that error at once. -/
 theorem terminal_error_returns (s : St) (i : Nat) (rest : List (Nat × Res)) (hm : s.main = .running)
     (hch : s.chan = (i, .term) :: rest) (ht : c.hasTerm = true) :
     ∃ s', step c s .recv = some s' ∧ s'.main = .retErr (.inst i) ∧ ∀ j, s'.ctx j = true :=
   PfC11.terminal_error_returns c s i rest hm hch ht
+
+/-- Receiving the error of a failed `awaitStart` which the predicate classifies as terminal makes the
+function return that cancellation-class error at once, whatever the tolerance. -/
+theorem terminal_abort_returns (s : St) (i : Nat) (rest : List (Nat × Res)) (hm : s.main = .running)
+    (hch : s.chan = (i, .aborted) :: rest) (ht : c.hasTerm = true) (ha : s.abT i = true) :
+    ∃ s', step c s .recv = some s' ∧ s'.main = .retErr .cancelled ∧ ∀ j, s'.ctx j = true :=
+  PfC11.terminal_abort_returns c s i rest hm hch ht ha
 
 /-- a done caller context is a ready case of the main loop's `select`, and taking it returns `cancelled`. -/
 theorem cancel_returns (s : St) (hm : s.main = .running) (hp : s.parentCanc = true) :
@@ -175,6 +238,34 @@ theorem minimisation_bound (hmin : c.minimize = true) (hinv : c.invalid = false)
     s.nFailRel ≤ s.doneErr.length :=
   PfC11.minimisation_bound hmin hinv hord hr
 
+/-- The same in terms of what was released: every started instance (its zone, in zone-aware mode:
+`PfC11.unitOf`) is one of the released units, and at most the minimum (`PfC11.minUnits`) plus one per
+failure-release and per tick were released. -/
+theorem minimisation_released (hmin : c.minimize = true) (hinv : c.invalid = false)
+    (hord : c.zoneMode = false → order.length = c.n) (hr : run c (init c order pre) evs = some s) :
+    (∀ i, i ∈ s.started → PfC11.unitOf c i ∈ s.released) ∧
+    s.released.length ≤ PfC11.minUnits c + s.nFailRel + s.nTicks :=
+  PfC11.minimisation_released hmin hinv hord hr
+
+/-- **Lower bound, failure half** ("… until a failure … releases more"): when the main loop receives a
+non-terminal error (zone-aware: the first one of its zone) while requests are still held back, the
+`recv` step releases the next held-back unit `u` — every instance `j` with `unitOf c j = u` may start. -/
+theorem failure_releases_next (s : St) (i : Nat) (r : Res) (rest : List (Nat × Res)) (u : Nat) (us : List Nat)
+    (hm : s.main = .running) (hch : s.chan = (i, r) :: rest) (hr : r ≠ .ok) (hnt : isTerminal c s i r = false)
+    (hp : s.pending = u :: us) (hfirst : c.zoneMode = true → s.fails (c.zoneOf i) = 0) :
+    ∃ s', step c s .recv = some s' ∧ (∀ j, PfC11.unitOf c j = u → s'.rel j = .go) ∧
+      s'.released = s.released ++ [u] ∧ s'.pending = us :=
+  PfC11.failure_releases_next c s i r rest u us hm hch hr hnt hp hfirst
+
+/-- **Lower bound, hedging half** ("… or the hedging delay releases more", untimed): handling a
+hedging tick releases the next held-back unit. (That ticks arrive every `HedgingDelay` is the
+ticker's; the judge's `hedging-release-overdue` rule checks it on the real code.) -/
+theorem tick_releases_next (s : St) (u : Nat) (us : List Nat) (hm : s.main = .running) (hh : c.hedging = true)
+    (hp : s.pending = u :: us) :
+    ∃ s', step c s .tick = some s' ∧ (∀ j, PfC11.unitOf c j = u → s'.rel j = .go) ∧
+      s'.released = s.released ++ [u] ∧ s'.pending = us :=
+  PfC11.tick_releases_next c s u us hm hh hp
+
 /-- … and in any mode never more calls than instances. -/
 theorem started_le_n (hr : run c (init c order pre) evs = some s) : s.started.length ≤ c.n :=
   PfC11.started_le_n hr
@@ -192,12 +283,24 @@ theorem multi_projection (hr : mrun cs (minit cs orders pre) mevs = some m) :
     ∀ k c, cs[k]? = some c → ∃ evs', run c (init c (orders.getD k []) pre) evs' = some (m.sets k) :=
   PfC11.multi_projection hr
 
-/-- Results are returned iff every set returned results, and they are exactly the union of the
-sets' results (each set's results meeting its own criterion by `multi_projection`). -/
+/-- If results are returned then every set returned results, and the returned results are exactly the
+union of the sets' results (each set's results meeting its own criterion by `multi_projection`).
+The converse is `multi_ret_ok_iff`. -/
 theorem multi_returns_ok {rs} (hr : mrun cs (minit cs orders pre) mevs = some m) (hret : m.ret = some (.ok rs)) :
     (∀ k, k < cs.length → ∃ rk, (m.sets k).main = .retOk rk ∧ ∀ i, (k, i) ∈ rs ↔ i ∈ rk) ∧
     (∀ k i, (k, i) ∈ rs → k < cs.length) :=
   PfC11.multi_returns_ok hr hret
+
+/-- Once the multi-set call has returned: it returned results **iff** every set returned results. -/
+theorem multi_ret_ok_iff (hr : mrun cs (minit cs orders pre) mevs = some m) (hret : m.ret.isSome = true) :
+    (∃ rs, m.ret = some (.ok rs)) ↔ ∀ k, k < cs.length → ∃ rk, (m.sets k).main = .retOk rk :=
+  PfC11.multi_ret_ok_iff hr hret
+
+/-- Error return: the workers' context, hence the context of every callback — all their results are
+unused — is cancelled. -/
+theorem multi_err_ctx_cancelled {e} (hr : mrun cs (minit cs orders pre) mevs = some m) (hret : m.ret = some (.error e)) :
+    m.workersCanc = true ∧ ∀ k j, (m.sets k).ctx j = true :=
+  PfC11.multi_err_ctx_cancelled hr hret
 
 /-- An error is returned only if some set's quorum read returned that error, and it is the
 **first** error: every worker that finished before that set's worker had returned results. -/
@@ -365,5 +468,39 @@ def exR : C02.RSetAll :=
 def exZid (z : String) : Nat := if z = "z0" then 0 else 1
 
 example : PfC11.Corresponds exCfg exR exZid := ⟨by decide, by decide, by decide, rfl, rfl⟩
+
+
+/-- flat, 2 instances, 1 tolerated error, minimisation with hedging, terminal-error predicate set. -/
+def exCfg3 : Cfg :=
+  { zones := [0, 0], maxErrors := 1, maxUnavail := 0, zoneAware := false, minimize := true, hedging := true
+    hasTerm := true, cancelAll := true }
+
+-- a terminal error: reason 4 of `error_has_cause`, `terminal_error_returns`
+example : (run exCfg3 (init exCfg3 [1, 0] false) [.begin 0, .finish 0 .term, .recv]).map
+    (fun s => (s.main, s.fin.map (·.1), failed exCfg3 s)) = some (.retErr (.inst 0), [0], false) := by decide +kernel
+-- a hedging tick releases the held-back instance 1 (`tick_releases_next`, `minimisation_bound` with nTicks = 1)
+example : (run exCfg3 (init exCfg3 [1, 0] false) [.begin 0, .tick, .begin 1]).map
+    (fun s => (s.started, s.released, s.nTicks, s.pending)) = some ([0, 1], [0, 1], 1, []) := by decide +kernel
+-- a tolerated failure releases it as well (`failure_releases_next`)
+example : (run exCfg3 (init exCfg3 [1, 0] false) [.begin 0, .finish 0 .err, .recv, .begin 1]).map
+    (fun s => (s.main, s.started, s.released, s.nFailRel)) = some (.running, [0, 1], [0, 1], 1) := by decide +kernel
+example : exCfg3.minimize = true ∧ exCfg3.invalid = false ∧ (exCfg3.zoneMode = false → [1, 0].length = exCfg3.n) := by decide
+
+/-- two sets of one instance each: both succeed, the call returns both results; once both callbacks
+have called their cancel functions (`done`) the workers' context is cancelled
+(`multi_returns_ok`, `multi_ret_ok_iff`, `multi_ok_workers_ctx` with `inflight = []`). -/
+def okEvs : List MEv :=
+  [.set 0 (.begin 0), .set 1 (.begin 0), .set 0 (.finish 0 .ok), .set 0 .recv, .join 0,
+   .set 1 (.finish 0 .ok), .set 1 .recv, .join 1, .ret, .done 0 0, .done 1 0]
+
+example : (mrun [wCfg, wCfg] (minit [wCfg, wCfg] [[], []] false) okEvs).map
+    (fun m => (mreturned m, m.inflight, m.workersCanc, (m.sets 0).ctx 0 && (m.sets 1).ctx 0)) =
+    some ([(0, 0), (1, 0)], [], true, true) := by decide +kernel
+-- before the second `done` the workers' context is still live
+example : (mrun [wCfg, wCfg] (minit [wCfg, wCfg] [[], []] false) (okEvs.take 10)).map
+    (fun m => (m.inflight, m.workersCanc, (m.sets 1).ctx 0)) = some ([(1, 0)], false, false) := by decide +kernel
+-- error path (`multi_err_ctx_cancelled`): see the example after `multi_cleanup` (`wEvs`)
+example : (mrun [wCfg, wCfg] (minit [wCfg, wCfg] [[], []] false) wEvs).map
+    (fun m => (m.workersCanc, (m.sets 0).ctx 0 && (m.sets 1).ctx 0)) = some (true, true) := by decide +kernel
 
 end PC11
